@@ -385,6 +385,80 @@ pub fn check(prop: &str, tier: &str) -> i32 {
         rep.transitions += runs;
         rep.set("big_memo_generations", json!({"sizes": sizes, "generations": runs}));
     }
+    // long programs: the end-of-program collapse has to bring ANY final stack down to one object, however many items
+    // the body left. Steady strategies (always the same opcode) and the empty fuzzer input, opcode counts around 10 000,
+    // 20 000 and above; untraced, each on its own 256 MiB thread, judged from the bytes by the reference machine.
+    if prop == "C01" {
+        use rayon::prelude::*;
+        let noop = |_: &RunCtx| -> Vec<Finding> { vec![] };
+        let ts: Vec<usize> = if tier == "quick" { vec![10_003, 20_005, 30_000] } else { vec![9_999, 10_001, 10_002, 10_003, 20_001, 20_002, 20_003, 20_005, 30_000, 50_000, 65_537] };
+        let mut jobs: Vec<(u8, usize, Vec<u8>, Vec<u8>, String)> = vec![];
+        for p in (0..=5u8).rev() {
+            let ex = Explorer { base_cfg: Cfg::new(p).flags(true, true), opts: Opts::default(), monitor: &noop, xval_full: Default::default(), choice_discovery: Default::default() };
+            for &t in &ts {
+                jobs.push((p, t, vec![], vec![], "empty fuzzer input".to_string()));
+            }
+            for (first, repo, label) in crate::total::STRATEGIES {
+                let Some((first, repo)) = crate::total::strategy_ops(p, first, repo) else { continue };
+                match crate::total::steady(&ex, first, repo) {
+                    Ok((prefix, unit)) => {
+                        for &t in &ts {
+                            jobs.push((p, t, prefix.clone(), unit.clone(), label.to_string()));
+                        }
+                    }
+                    Err(e) => rep.set(&format!("skipped_long_program_P{p}_{}", lexer::name(repo)), json!(e)),
+                }
+            }
+        }
+        let res: Vec<(usize, Vec<Finding>, bool)> = jobs
+            .par_iter()
+            .enumerate()
+            .map(|(i, (p, t, prefix, unit, _label))| {
+                let (p, t) = (*p, *t);
+                let mut s = prefix.clone();
+                while !unit.is_empty() && s.len() < prefix.len() + unit.len() * (t + 8) {
+                    s.extend_from_slice(unit);
+                }
+                let cfg = Cfg::new(p).flags(true, true).range(t, t);
+                let c2 = cfg.clone();
+                let s2 = s.clone();
+                // a private big stack: nesting depth T structures are built and dropped here
+                let r = std::thread::Builder::new().stack_size(256 << 20).spawn(move || crate::run::run_bytes(&c2, &s2, false, false)).ok().and_then(|h| h.join().ok());
+                let Some(r) = r else { return (i, vec![], false) };
+                let tr = trace::parse(&[], 0, false);
+                match r.bytes() {
+                    Some(bts) => {
+                        let (ops, m) = analyse(bts);
+                        let ctx = RunCtx { cfg: &cfg, script: &s, res: &r, tr: &tr, ops: &ops, m: m.as_ref() };
+                        (i, mon(&ctx), true)
+                    }
+                    None => (i, vec![], false),
+                }
+            })
+            .collect();
+        let mut runs = 0u64;
+        let mut no_output = 0u64;
+        for (i, fs, got) in res {
+            runs += 1;
+            let (p, t, prefix, unit, label) = &jobs[i];
+            if !got {
+                no_output += 1;
+            }
+            for fd in fs {
+                // class: the oracle's class + the strategy (not T and not the protocol: a longer run of the same shape is the same defect)
+                rep.finding_raw(
+                    &format!("{}:long-program:{}", fd.class, label.split(' ').next().unwrap_or("?")),
+                    &format!("P{p}, {t} opcodes, {label}: {}", fd.msg),
+                    json!({"kind":"long-program","config":Cfg::new(*p).flags(true, true).range(*t, *t).to_json(),"prefix_hex":lexer::hex(prefix),"unit_hex":lexer::hex(unit),"opcodes":t,"strategy":label}),
+                );
+            }
+        }
+        if no_output > 0 {
+            rep.machinery.push(format!("long programs: {no_output} of {runs} generations returned no bytes (panic, Err or thread failure) and could not be judged — that is C09's finding"));
+        }
+        rep.transitions += runs;
+        rep.set("long_program_generations", json!({"opcode_counts": ts, "strategies": crate::total::STRATEGIES.iter().map(|x| x.2).chain(std::iter::once("empty fuzzer input")).collect::<Vec<_>>(), "generations": runs}));
+    }
     // deeper stacks than the closure's box: every stack of depth <= 5 (6) over one representative per kind class,
     // consumers run once from each
     if matches!(prop, "C01" | "C03" | "C17") {
@@ -755,6 +829,36 @@ pub fn replay(path: &str) -> i32 {
         cfg.max = n + 2;
         println!("config: {} ; script = prefix + unit x {} + last byte ({} bytes)", cfg.describe(), n.saturating_sub(258), s.len());
         let r = run_bytes(&cfg, &s, false, false);
+        let tr = trace::parse(&[], 0, false);
+        let prop = v["property"].as_str().unwrap_or("").to_string();
+        return match r.bytes() {
+            Some(b) => {
+                let (ops, m) = analyse(b);
+                let ctx = RunCtx { cfg: &cfg, script: &s, res: &r, tr: &tr, ops: &ops, m: m.as_ref() };
+                let fs = monitor_for(&prop)(&ctx);
+                for f in &fs {
+                    println!("FINDING {} {}: {}", f.prop, f.class, f.msg);
+                }
+                println!("output: {} bytes, last opcodes: {}", b.len(), lexer::disasm(&b[b.len().saturating_sub(12)..]).replace('\n', " | "));
+                (!fs.is_empty()) as i32
+            }
+            None => 1,
+        };
+    }
+    if v["kind"].as_str() == Some("long-program") {
+        println!("replaying {} [{}]: {}", v["property"].as_str().unwrap_or(""), v["class"].as_str().unwrap_or(""), v["message"].as_str().unwrap_or(""));
+        let cfg = Cfg::from_json(&v["config"]);
+        let t = v["opcodes"].as_u64().unwrap_or(0) as usize;
+        let prefix = lexer::unhex(v["prefix_hex"].as_str().unwrap_or(""));
+        let unit = lexer::unhex(v["unit_hex"].as_str().unwrap_or(""));
+        let mut s = prefix.clone();
+        while !unit.is_empty() && s.len() < prefix.len() + unit.len() * (t + 8) {
+            s.extend_from_slice(&unit);
+        }
+        println!("config: {} ; fuzzer input = prefix {} + unit {} repeated ({} bytes)", cfg.describe(), lexer::hex(&prefix), lexer::hex(&unit), s.len());
+        let (c2, s2) = (cfg.clone(), s.clone());
+        let r = std::thread::Builder::new().stack_size(256 << 20).spawn(move || run_bytes(&c2, &s2, false, false)).ok().and_then(|h| h.join().ok());
+        let Some(r) = r else { return 1 };
         let tr = trace::parse(&[], 0, false);
         let prop = v["property"].as_str().unwrap_or("").to_string();
         return match r.bytes() {
